@@ -48,5 +48,18 @@ if os.path.exists(mm) and "<!-- BEGIN MODELMUT -->" in s:
     tab = open(mm).read()
     tab = tab[tab.index("| model file"):tab.index("## Survivors")].strip()
     s = re.sub(r"<!-- BEGIN MODELMUT -->.*?<!-- END MODELMUT -->", lambda m: "<!-- BEGIN MODELMUT -->\n" + tab + "\n<!-- END MODELMUT -->", s, flags=re.S)
+# section 0, last column: theorem counts follow the property files
+import glob as _glob
+_lines = s.split("\n")
+for _i, _l in enumerate(_lines[:60]):
+    _m = re.match(r"\| (C\d\d) \|", _l)
+    if not _m:
+        continue
+    _n = sum(len(re.findall(r"^Theorem", open(_f).read(), flags=re.M))
+             for _f in _glob.glob(os.path.join(V, "coq", "Props", _m.group(1) + ".v")) + _glob.glob(os.path.join(V, "coq", "Props", _m.group(1) + "_*.v")))
+    _cells = _l.split("|")
+    _cells[-2] = re.sub(r"\d+ (grouped )?theorems", lambda mm: f"{_n} " + (mm.group(1) or "") + "theorems", _cells[-2])
+    _lines[_i] = "|".join(_cells)
+s = "\n".join(_lines)
 open(p, "w").write(s)
 print("DESIGN.md sections 10.3/10.4 regenerated")
